@@ -69,7 +69,7 @@ def record(g, case_id, family, variant, outputs, feeds_list, tol="model", extra=
         "model_vi": hexs(g.to_onnx(outputs, value_info=True)),
         "inputs": tensors,
         "input_names": list(g.inputs),
-        "input_decl": {n: g.vals[n].decl for n in g.inputs},
+        "input_decl": {n: (None if g.vals[n].noshape else g.vals[n].decl) for n in g.inputs},
         "input_sets": input_sets,
         "outputs": list(outputs),
         "internals": [n for n in g.order if g.vals[n].kind == "node"],
